@@ -199,6 +199,13 @@ def snapshot_obj(o, style=True):
     return s
 
 
+def _noaddr(text):
+    """memory addresses in reprs of function-valued leaves are not part of the style"""
+    import re  # pylint: disable=import-outside-toplevel
+
+    return re.sub(r" at 0x[0-9a-fA-F]+", "", text)
+
+
 def style_view(o):
     """Observable style of an object (what `o.style.as_dict()` would show) computed without
     triggering the object's lazy style creation: lazily pending constructor keywords are
@@ -213,10 +220,10 @@ def style_view(o):
         elif pending:
             tmp = _copy.deepcopy(st)
         else:
-            return repr(st.as_dict())
+            return _noaddr(repr(st.as_dict()))
         if pending:
             tmp.update(_copy.deepcopy(pending))
-        return repr(tmp.as_dict())
+        return _noaddr(repr(tmp.as_dict()))
     except Exception as e:  # pylint: disable=broad-except
         return f"<style view raises {type(e).__name__}: {e}>"
 
